@@ -5,6 +5,7 @@ import "errors"
 var (
 	ErrUnsupportedAlgorithm = errors.New("unsupported algorithm")
 	ErrInvalidCodeLength    = errors.New("invalid code length")
+	ErrInvalidDigits        = errors.New("invalid digits, supported code lengths are 1 to 10")
 	ErrInvalidCode          = errors.New("invalid otp code")
 	ErrIssuerRequired       = errors.New("issuer is required")
 	ErrAccountNameRequired  = errors.New("account name is required")
